@@ -97,10 +97,18 @@ def gen(rng, tier, quarantine=()):
                         "style": rng.randrange(2)})
         ops.append({"op": "enter", "id": ops[-1]["id"]})
     tl = 40 if tier == "quick" else 90
+    live = [op["id"] for op in ops if op["op"] == "enter"]
     for c in range(rng.randint(1, 3)):
         ops.append({"op": "call", "fn": rng.choice(["L", "L", "outer", "inner"]), "nargs": 1,
                     "tape": gen_tape(rng, rng.randint(6, tl), hi=40, odd=0.35), "faults": {},
                     "box": BOX})
+        if len(live) > 1 and rng.random() < 0.35:
+            # one of the probes goes away, in any order: the conditions of those that stay keep
+            # filtering (the constrained variables stay instrumented for them)
+            ops.append({"op": "exit", "id": live.pop(rng.randrange(len(live)))})
+            ops.append({"op": "call", "fn": rng.choice(["L", "L", "outer", "inner"]), "nargs": 1,
+                        "tape": gen_tape(rng, rng.randint(6, tl), hi=40, odd=0.35), "faults": {},
+                        "box": BOX})
     return {"prog": "loops", "ops": ops, "subst_inv": "C12.override_filter"}
 
 
